@@ -19,6 +19,10 @@ Definition ev_ok (s : st) (e : ev) : Prop :=
   | PI => True
       (* a signal can arrive at any time: at the enter call, while blocked (then the poller is
          resumed although nothing arrived), and anywhere else it changes nothing *)
+  | Timeout => pp s = PInKernel /\ timed s = true
+               /\ cq s = 0 /\ sqh s = sqt s /\ all_wakers_finished s
+      (* the precondition of [Stuck], for a wait with the caller's finite timeout: the duration is
+         never waited for, the timeout expires when nobody is left who could post anything *)
   end.
 
 Inductive valid : st -> list ev -> Prop :=
@@ -27,19 +31,21 @@ Inductive valid : st -> list ev -> Prop :=
 
 (** C11 main: whatever the ring mode, the size [c] of the submission queue, the number [prefill]
     of unrelated entries queued (and never completing) when the race starts, the number of polls,
-    the number of wakers and of their calls, and the interleaving: the poller never blocks for
-    ever while a wake-up is owed. (No relation between [c] and [prefill] is needed: with [c = 0]
+    which of them are called with a finite timeout ([tm]: any list), the number of wakers and of
+    their calls, and the interleaving: the poller never blocks for ever while a wake-up is owed,
+    and no poll with a finite timeout sleeps its whole timeout while a wake-up is owed ([lost] is
+    set by [Stuck] and by [Timeout] when something is owed). (No relation between [c] and [prefill] is needed: with [c = 0]
     every [add] fails and the wakers retry for ever, which is "inside the call"; safety only,
     termination of the retry loop of [Submissions::wake] is not claimed.) *)
 Definition no_lost_ring_wakeup : Prop :=
-  forall m c prefill nparked npolls wcalls es, valid (init m c prefill nparked npolls wcalls) es ->
-    lost (fst (run step (init m c prefill nparked npolls wcalls) es)) = false.
+  forall m c prefill nparked npolls tm wcalls es, valid (init m c prefill nparked npolls tm wcalls) es ->
+    lost (fst (run step (init m c prefill nparked npolls tm wcalls) es)) = false.
 
 (** The invariant behind it, as a statement of its own: whenever the poller is blocked in the
     kernel and a wake-up is owed, something is on its way. *)
 Definition wake_is_on_its_way : Prop :=
-  forall m c prefill nparked npolls wcalls es, valid (init m c prefill nparked npolls wcalls) es ->
-    let s := fst (run step (init m c prefill nparked npolls wcalls) es) in
+  forall m c prefill nparked npolls tm wcalls es, valid (init m c prefill nparked npolls tm wcalls) es ->
+    let s := fst (run step (init m c prefill nparked npolls tm wcalls) es) in
     pp s = PInKernel -> owed s = true ->
       0 < cq s \/ sqh s < sqt s \/ exists i w, nth_error (wakers s) i = Some w /\ wp w <> WIdle.
 
@@ -55,8 +61,8 @@ Definition awoken_bit_makes_next_poll_prompt : Prop :=
     head, the other entries first; [to_submit] is computed from a head loaded earlier, so it
     covers everything pending). No assumption on the schedule. *)
 Definition pending_message_has_a_submitter : Prop :=
-  forall m c prefill nparked npolls wcalls es,
-    let s := fst (run step (init m c prefill nparked npolls wcalls) es) in
+  forall m c prefill nparked npolls tm wcalls es,
+    let s := fst (run step (init m c prefill nparked npolls tm wcalls) es) in
     sqh s + sqo s < sqt s ->
       md s = KernelThread
       \/ exists i w, nth_error (wakers s) i = Some w /\ (wp w = WEnterH \/ wp w = WEnterT).
@@ -65,8 +71,8 @@ Definition pending_message_has_a_submitter : Prop :=
     some waker has not finished its call (and, finishing it, will post the message). In the
     kernel-thread case a wake message is among what the kernel thread will take. *)
 Definition owed_poller_is_resumable_or_a_waker_is_running : Prop :=
-  forall m c prefill nparked npolls wcalls es, valid (init m c prefill nparked npolls wcalls) es ->
-    let s := fst (run step (init m c prefill nparked npolls wcalls) es) in
+  forall m c prefill nparked npolls tm wcalls es, valid (init m c prefill nparked npolls tm wcalls) es ->
+    let s := fst (run step (init m c prefill nparked npolls tm wcalls) es) in
     pp s = PInKernel -> owed s = true ->
       0 < cq s \/ (md s = KernelThread /\ sqh s + sqo s < sqt s)
       \/ exists i w, nth_error (wakers s) i = Some w /\ wp w <> WIdle.
@@ -212,10 +218,10 @@ Qed.
 
 (** ** One step at a time *)
 Ltac proj :=
-  cbn [md pstate cap sqh sqt sqo cq holder pp polls aw lh seen wakers wlh psub parked owed lost
+  cbn [md pstate cap sqh sqt sqo cq holder pp polls aw lh seen wakers wlh psub parked owed tmos lost
        set_p set_lh set_w set_wlh set_holder set_psub set_parked wbf_putback clear_polling consume consume_all
        poll_return at_pc at_pc_ok call_done wp calls wok
-       after_enter_ok pstuck
+       after_enter_ok pstuck ptimeout
        polling_pc entering_pc before_pc] in *.
 Ltac inv_destruct H := destruct H as (Hle & Hps & Hb0 & Hik & How & Hbe & Hres & Hlost).
 Ltac splits := repeat match goal with |- _ /\ _ => split end.
@@ -479,17 +485,35 @@ Proof.
   unfold committed in Hw. rewrite E in Hw. discriminate Hw.
 Qed.
 
+(** Nobody left who could post anything: nothing is owed to a blocked poller. *)
+Lemma Inv_nobody_left s :
+  Inv s -> pp s = PInKernel -> cq s = 0 -> sqh s = sqt s -> all_wakers_finished s -> owed s = false.
+Proof.
+  intros HI Epp Hcq Hsq Hall.
+  destruct (owed s) eqn:Ho; [|reflexivity]. exfalso.
+  destruct (Inv_blocked_owed s HI Epp Ho) as [H|[H|H]]; [lia|lia|].
+  apply (finished_no_committed s Hall H).
+Qed.
+
+Lemma Inv_pstuck s : Inv s -> pp s = PInKernel -> owed s = false -> Inv (pstuck s).
+Proof.
+  intros HI Epp Ho. inv_destruct HI. rewrite Epp in *. unfold Inv; proj.
+  destruct (psub s =? 0); proj;
+    (splits; try assumption; try (intros; discriminate); rewrite Hlost, Ho; reflexivity).
+Qed.
+
 (** The scheduler reports "stuck" only when nothing is owed. *)
 Lemma Inv_stuck s : Inv s -> ev_ok s Stuck -> Inv (fst (step s Stuck)).
 Proof.
   intros HI (Epp & Hcq & Hsq & Hall). cbn [step fst]. rewrite Epp.
-  assert (Ho : owed s = false).
-  { destruct (owed s) eqn:Ho; [|reflexivity]. exfalso.
-    destruct (Inv_blocked_owed s HI Epp Ho) as [H|[H|H]]; [lia|lia|].
-    apply (finished_no_committed s Hall H). }
-  inv_destruct HI. rewrite Epp in *. unfold Inv; proj.
-  destruct (psub s =? 0); proj;
-    (splits; try assumption; try (intros; discriminate); rewrite Hlost, Ho; reflexivity).
+  apply Inv_pstuck; [exact HI|exact Epp|]. apply Inv_nobody_left; assumption.
+Qed.
+
+(** ... and a timeout expires only when nothing is owed. *)
+Lemma Inv_timeout s : Inv s -> ev_ok s Timeout -> Inv (fst (step s Timeout)).
+Proof.
+  intros HI (Epp & Htm & Hcq & Hsq & Hall). cbn [step fst]. rewrite Epp, Htm. unfold ptimeout.
+  apply Inv_pstuck; [exact HI|exact Epp|]. apply Inv_nobody_left; assumption.
 Qed.
 
 (** The interrupted enter: the submission work keeps the invariant, and the poller is past its
@@ -522,14 +546,15 @@ Qed.
 
 Lemma Inv_step s e : Inv s -> ev_ok s e -> Inv (fst (step s e)).
 Proof.
-  intros HI Hok. destruct e as [|i| |].
+  intros HI Hok. destruct e as [|i| | |].
   - apply Inv_pstep; exact HI.
   - apply Inv_wstep; exact HI.
   - apply Inv_stuck; assumption.
   - apply Inv_pintr; exact HI.
+  - apply Inv_timeout; assumption.
 Qed.
 
-Lemma Inv_init m c prefill nparked npolls wcalls : Inv (init m c prefill nparked npolls wcalls).
+Lemma Inv_init m c prefill nparked npolls tm wcalls : Inv (init m c prefill nparked npolls tm wcalls).
 Proof.
   unfold Inv, init; proj. splits; try reflexivity; try lia; intros; discriminate.
 Qed.
@@ -546,9 +571,9 @@ Proof.
   destruct (run step s1 es) as [s2 o2]. exact IH.
 Qed.
 
-Lemma run_Inv m c prefill nparked npolls wcalls es :
-  valid (init m c prefill nparked npolls wcalls) es ->
-  Inv (fst (run step (init m c prefill nparked npolls wcalls) es)).
+Lemma run_Inv m c prefill nparked npolls tm wcalls es :
+  valid (init m c prefill nparked npolls tm wcalls) es ->
+  Inv (fst (run step (init m c prefill nparked npolls tm wcalls) es)).
 Proof. intros Hv. apply (run_valid_invariant Inv Inv_step); [exact Hv|apply Inv_init]. Qed.
 
 (** ** The second invariant *)
@@ -718,28 +743,29 @@ Qed.
 
 Lemma Inv2_step s e : Inv2 s -> Inv2 (fst (step s e)).
 Proof.
-  intros HI. destruct e as [|i| |]; cbn [step fst].
+  intros HI. destruct e as [|i| | |]; cbn [step fst].
   - apply Inv2_pstep; exact HI.
   - apply Inv2_wstep; exact HI.
   - destruct (pp s); exact HI.
   - apply Inv2_pintr; exact HI.
+  - destruct (pp s); try exact HI. destruct (timed s); exact HI.
 Qed.
 
-Lemma Inv2_init m c prefill nparked npolls wcalls : Inv2 (init m c prefill nparked npolls wcalls).
+Lemma Inv2_init m c prefill nparked npolls tm wcalls : Inv2 (init m c prefill nparked npolls tm wcalls).
 Proof.
   unfold Inv2, init; proj. splits; try lia.
   apply Forall_forall. intros v Hin. apply in_map_iff in Hin. destruct Hin as (x & <- & _). lia.
 Qed.
 
-Lemma run_Inv2 m c prefill nparked npolls wcalls es :
-  Inv2 (fst (run step (init m c prefill nparked npolls wcalls) es)).
+Lemma run_Inv2 m c prefill nparked npolls tm wcalls es :
+  Inv2 (fst (run step (init m c prefill nparked npolls tm wcalls) es)).
 Proof. apply (run_invariant step Inv2 Inv2_step). apply Inv2_init. Qed.
 
 (** ** The statements *)
 Lemma no_lost_ring_wakeup_holds : no_lost_ring_wakeup.
 Proof.
-  intros m c prefill nparked npolls wcalls es Hv.
-  pose proof (run_Inv m c prefill nparked npolls wcalls es Hv) as HI.
+  intros m c prefill nparked npolls tm wcalls es Hv.
+  pose proof (run_Inv m c prefill nparked npolls tm wcalls es Hv) as HI.
   inv_destruct HI. exact Hlost.
 Qed.
 
@@ -752,8 +778,8 @@ Qed.
 
 Lemma wake_is_on_its_way_holds : wake_is_on_its_way.
 Proof.
-  intros m c prefill nparked npolls wcalls es Hv. cbv zeta. intros Epp Ho.
-  pose proof (run_Inv m c prefill nparked npolls wcalls es Hv) as HI.
+  intros m c prefill nparked npolls tm wcalls es Hv. cbv zeta. intros Epp Ho.
+  pose proof (run_Inv m c prefill nparked npolls tm wcalls es Hv) as HI.
   destruct (Inv_blocked_owed _ HI Epp Ho) as [H|[H|H]]; [left; exact H|right; left; lia|].
   right; right. apply committed_not_idle. exact H.
 Qed.
@@ -765,8 +791,8 @@ Qed.
 
 Lemma pending_message_has_a_submitter_holds : pending_message_has_a_submitter.
 Proof.
-  intros m c prefill nparked npolls wcalls es. cbv zeta. intros Hlt.
-  pose proof (run_Inv2 m c prefill nparked npolls wcalls es) as HI. inv2_destruct HI.
+  intros m c prefill nparked npolls tm wcalls es. cbv zeta. intros Hlt.
+  pose proof (run_Inv2 m c prefill nparked npolls tm wcalls es) as HI. inv2_destruct HI.
   destruct (Hsub Hlt) as [H|(i & w & Hi & Hw)]; [left; exact H|right].
   exists i, w. split; [exact Hi|]. unfold submitter in Hw.
   destruct (wp w); try discriminate Hw; auto.
@@ -775,11 +801,11 @@ Qed.
 Lemma owed_poller_is_resumable_or_a_waker_is_running_holds :
   owed_poller_is_resumable_or_a_waker_is_running.
 Proof.
-  intros m c prefill nparked npolls wcalls es Hv. cbv zeta. intros Epp Ho.
-  pose proof (run_Inv m c prefill nparked npolls wcalls es Hv) as HI.
+  intros m c prefill nparked npolls tm wcalls es Hv. cbv zeta. intros Epp Ho.
+  pose proof (run_Inv m c prefill nparked npolls tm wcalls es Hv) as HI.
   destruct (Inv_blocked_owed _ HI Epp Ho) as [H|[H|H]];
     [left; exact H| |right; right; apply committed_not_idle; exact H].
-  destruct (pending_message_has_a_submitter_holds m c prefill nparked npolls wcalls es H)
+  destruct (pending_message_has_a_submitter_holds m c prefill nparked npolls tm wcalls es H)
     as [Hm|(i & w & Hi & Hw)].
   - right; left. split; assumption.
   - right; right. exists i, w. split; [exact Hi|]. destruct Hw as [E|E]; rewrite E; discriminate.
@@ -800,6 +826,8 @@ Definition ev_okb (s : st) (e : ev) : bool :=
   | Stuck => in_kernelb (pp s) && (cq s =? 0) && (sqh s =? sqt s)
              && forallb waker_finished (wakers s)
   | PI => true
+  | Timeout => in_kernelb (pp s) && timed s && (cq s =? 0) && (sqh s =? sqt s)
+               && forallb waker_finished (wakers s)
   end.
 
 Fixpoint validb (s : st) (es : list ev) : bool :=
@@ -821,7 +849,7 @@ Qed.
 
 Lemma ev_okb_sound s e : ev_okb s e = true -> ev_ok s e.
 Proof.
-  destruct e as [|i| |]; cbn [ev_okb ev_ok]; intros H; [| | |exact I].
+  destruct e as [|i| | |]; cbn [ev_okb ev_ok]; intros H; [| | |exact I|].
   - intros Epp. rewrite Epp in H. cbn [in_kernelb negb orb] in H.
     apply orb_true_iff in H. destruct H as [H|H]; [left; apply N.ltb_lt; exact H|].
     apply andb_true_iff in H. destruct H as [H1 H2]. right.
@@ -831,6 +859,12 @@ Proof.
     apply andb_true_iff in H. destruct H as [H H3].
     apply andb_true_iff in H. destruct H as [H1 H2].
     split; [apply in_kernelb_eq; exact H1|]. split; [apply N.eqb_eq; exact H2|].
+    split; [apply N.eqb_eq; exact H3|apply all_wakers_finished_b; exact H4].
+  - apply andb_true_iff in H. destruct H as [H H4].
+    apply andb_true_iff in H. destruct H as [H H3].
+    apply andb_true_iff in H. destruct H as [H H2].
+    apply andb_true_iff in H. destruct H as [H1 H0].
+    split; [apply in_kernelb_eq; exact H1|]. split; [exact H0|]. split; [apply N.eqb_eq; exact H2|].
     split; [apply N.eqb_eq; exact H3|apply all_wakers_finished_b; exact H4].
 Qed.
 
@@ -872,13 +906,13 @@ Definition wake_schedule_single : list ev :=
 
 (** The examples below use a queue of 8 entries, empty at the start. *)
 Definition blocked_then_woken (m : mode) (es : list ev) (nblock : nat) : Prop :=
-  valid (init m 8 0 0 1 [1%nat]) es
-  /\ (let s := fst (run step (init m 8 0 0 1 [1%nat]) (firstn nblock es)) in
+  valid (init m 8 0 0 1 [] [1%nat]) es
+  /\ (let s := fst (run step (init m 8 0 0 1 [] [1%nat]) (firstn nblock es)) in
       pp s = PInKernel /\ pstate s = IS_POLLING /\ cq s = 0 /\ owed s = false)
-  /\ (let s := fst (run step (init m 8 0 0 1 [1%nat]) (firstn (S nblock) es)) in
+  /\ (let s := fst (run step (init m 8 0 0 1 [] [1%nat]) (firstn (S nblock) es)) in
       pp s = PInKernel /\ pstate s = N.lor IS_POLLING IS_AWOKEN /\ owed s = true
       /\ (0 < cq s \/ exists w, nth_error (wakers s) 0 = Some w /\ wp w = WAddH1))
-  /\ (let s := fst (run step (init m 8 0 0 1 [1%nat]) es) in
+  /\ (let s := fst (run step (init m 8 0 0 1 [] [1%nat]) es) in
       pp s = PIdle /\ polls s = O /\ pstate s = NOT_POLLING /\ owed s = false
       /\ lost s = false /\ all_wakers_finished s).
 
@@ -925,7 +959,7 @@ Definition wake_schedule_queue_full : list ev :=
   ++ [P; P; P; P; P; P; P; P; P].                       (* the poll returns *)
 
 Example wake_example_queue_full :
-  let s0 := init Default 1 1 0 1 [1%nat] in
+  let s0 := init Default 1 1 0 1 [] [1%nat] in
   let at_ n := fst (run step s0 (firstn n wake_schedule_queue_full)) in
   valid s0 wake_schedule_queue_full
   /\ (let s := at_ 4%nat in
@@ -978,17 +1012,17 @@ Definition strict_schedule : list ev :=
 
 Lemma strict_target_reading_refuted :
   exists es,
-    valid (init Default 8 0 0 2 [1%nat; 1%nat]) es
+    valid (init Default 8 0 0 2 [] [1%nat; 1%nat]) es
     /\ (* waker 1's fetch_or: poll 1 is in progress but no longer inside the kernel; the bit is
           already set; the call returns at once *)
-       (let s := fst (run step (init Default 8 0 0 2 [1%nat; 1%nat]) (firstn 16 es)) in
+       (let s := fst (run step (init Default 8 0 0 2 [] [1%nat; 1%nat]) (firstn 16 es)) in
         nth_error es 16 = Some (W 1)
         /\ pp s = PWbH /\ polls s = 2%nat /\ pstate s = N.lor IS_POLLING IS_AWOKEN
         /\ nth_error (wakers s) 1 = Some {| wp := WIdle; calls := 1; wok := false |}
         /\ nth_error (wakers (wstep s 1)) 1 = Some {| wp := WIdle; calls := 0; wok := false |})
     /\ (* the end: the second poll is blocked with nothing to wake it, and the scheduler may
           report it stuck; nothing is owed by the API-level reading *)
-       (let s := fst (run step (init Default 8 0 0 2 [1%nat; 1%nat]) es) in
+       (let s := fst (run step (init Default 8 0 0 2 [] [1%nat; 1%nat]) es) in
         pp s = PInKernel /\ polls s = 1%nat /\ cq s = 0 /\ sqh s = sqt s
         /\ all_wakers_finished s /\ ev_ok s Stuck
         /\ owed s = false /\ lost s = false
@@ -998,7 +1032,7 @@ Proof.
   split; [apply validb_sound; vm_compute; reflexivity|].
   split; [vm_compute; repeat split; reflexivity|].
   assert (Hfin : all_wakers_finished
-                   (fst (run step (init Default 8 0 0 2 [1%nat; 1%nat]) strict_schedule)))
+                   (fst (run step (init Default 8 0 0 2 [] [1%nat; 1%nat]) strict_schedule)))
     by (apply all_wakers_finished_b; vm_compute; reflexivity).
   split; [vm_compute; reflexivity|]. split; [vm_compute; reflexivity|].
   split; [vm_compute; reflexivity|]. split; [vm_compute; reflexivity|].
@@ -1099,11 +1133,12 @@ Qed.
 
 Lemma step_polls_le s e : (polls (fst (step s e)) <= polls s)%nat.
 Proof.
-  destruct e as [|i| |]; cbn [step fst].
+  destruct e as [|i| | |]; cbn [step fst].
   - apply pstep_polls_le.
   - destruct (wstep_pp_polls s i) as [_ E]. rewrite E. lia.
   - destruct (pp s); try lia. unfold pstuck. cbn [polls]. lia.
   - apply pintr_polls_le.
+  - destruct (pp s); try lia. destruct (timed s); try lia. unfold ptimeout, pstuck. cbn [polls]. lia.
 Qed.
 
 Lemma run_polls_le es : forall s, (polls (fst (run step s es)) <= polls s)%nat.
@@ -1151,7 +1186,7 @@ Proof.
       - left. pose proof (run_polls_le es (pstep s)). lia.
       - destruct (IH (pstep s) d' Hn' Hd') as [H|(H1 & d'' & H2 & H3)]; [left; exact H|right].
         split; [exact H1|]. exists d''. split; [exact H2|]. unfold poller_events in H3. lia. }
-    destruct e as [|i| |].
+    destruct e as [|i| | |].
     + apply (Hp (pstep s)); reflexivity.
     + cbn [step fst]. destruct (wstep_pp_polls s i) as [E1 E2].
       rewrite <- E2 in Hn. rewrite <- E1 in Hd.
@@ -1164,6 +1199,11 @@ Proof.
       split; [exact H1|]. exists d'. split; [exact H2|exact H3].
     + apply (Hp (pstep s)); try reflexivity.
       cbn [step fst]. apply (pintr_is_pstep_after_enter s d Hd).
+    + assert (Es : fst (step s Timeout) = s)
+        by (cbn [step fst]; destruct (pp s); try reflexivity; discriminate Hd).
+      rewrite Es.
+      destruct (IH s d Hn Hd) as [H|(H1 & d' & H2 & H3)]; [left; exact H|right].
+      split; [exact H1|]. exists d'. split; [exact H2|exact H3].
 Qed.
 
 Lemma interrupted_enter_makes_poll_return_holds : interrupted_enter_makes_poll_return.
@@ -1204,7 +1244,7 @@ Qed.
 
 Lemma poll_return_clears_owed_holds : poll_return_clears_owed.
 Proof.
-  intros s e. destruct e as [|i| |]; cbn [step fst].
+  intros s e. destruct e as [|i| | |]; cbn [step fst]; [| | | |destruct (timed s)].
   - apply pstep_return_clears_owed.
   - destruct (wstep_pp_polls s i) as [_ E]. rewrite E. intros H; exfalso; apply H; reflexivity.
   - destruct (pp s); intros H; exfalso; apply H; reflexivity.
@@ -1213,6 +1253,8 @@ Proof.
     + cbn [polls set_p]. rewrite syscall_submit_polls. intros H; exfalso; apply H; reflexivity.
     + destruct (md s); destruct (0 <? cq _); try destruct (psub s =? 0);
         cbn [polls after_enter_ok set_p consume_all consume]; intros H; exfalso; apply H; reflexivity.
+  - destruct (pp s); intros H; exfalso; apply H; reflexivity.
+  - destruct (pp s); intros H; exfalso; apply H; reflexivity.
 Qed.
 
 (** ** Non-vacuity of the interrupted enter, and what a retrying poll would lose *)
@@ -1229,13 +1271,13 @@ Definition eintr_schedule : list ev :=
 
 (** The code as it is: the poll returns, nothing is owed. In each mode. *)
 Definition interrupted_then_returns (m : mode) : Prop :=
-  valid (init m 8 0 0 1 [1%nat]) eintr_schedule
-  /\ (let s := fst (run step (init m 8 0 0 1 [1%nat]) (firstn 5 eintr_schedule)) in
+  valid (init m 8 0 0 1 [] [1%nat]) eintr_schedule
+  /\ (let s := fst (run step (init m 8 0 0 1 [] [1%nat]) (firstn 5 eintr_schedule)) in
       (pp s = PEnterT \/ pp s = PEnterFlags) /\ aw s = true /\ owed s = true
       /\ pstate s = IS_POLLING /\ cq s = 0 /\ all_wakers_finished s)
-  /\ (let s := fst (run step (init m 8 0 0 1 [1%nat]) (firstn 6 eintr_schedule)) in
+  /\ (let s := fst (run step (init m 8 0 0 1 [] [1%nat]) (firstn 6 eintr_schedule)) in
       pp s = PClearPollingIntr /\ owed s = true)
-  /\ (let s := fst (run step (init m 8 0 0 1 [1%nat]) eintr_schedule) in
+  /\ (let s := fst (run step (init m 8 0 0 1 [] [1%nat]) eintr_schedule) in
       pp s = PIdle /\ polls s = O /\ pstate s = NOT_POLLING /\ owed s = false /\ lost s = false).
 
 (** Kernel-thread mode has one load less before the call (flags instead of head + tail). *)
@@ -1261,10 +1303,10 @@ Proof.
 Qed.
 
 Example eintr_example_kthread :
-  valid (init KernelThread 8 0 0 1 [1%nat]) eintr_schedule_kthread
-  /\ (let s := fst (run step (init KernelThread 8 0 0 1 [1%nat]) (firstn 4 eintr_schedule_kthread)) in
+  valid (init KernelThread 8 0 0 1 [] [1%nat]) eintr_schedule_kthread
+  /\ (let s := fst (run step (init KernelThread 8 0 0 1 [] [1%nat]) (firstn 4 eintr_schedule_kthread)) in
       pp s = PEnterFlags /\ aw s = true /\ owed s = true /\ pstate s = IS_POLLING /\ cq s = 0)
-  /\ (let s := fst (run step (init KernelThread 8 0 0 1 [1%nat]) eintr_schedule_kthread) in
+  /\ (let s := fst (run step (init KernelThread 8 0 0 1 [] [1%nat]) eintr_schedule_kthread) in
       pp s = PIdle /\ polls s = O /\ pstate s = NOT_POLLING /\ owed s = false /\ lost s = false).
 Proof.
   cbv zeta. split; [apply validb_sound; vm_compute; reflexivity|].
@@ -1274,7 +1316,7 @@ Qed.
 (** A signal while the poll is blocked, nothing owed: the poll returns as well (and the next one
     blocks again: nobody wakes it, nothing is owed, the scheduler may report it stuck). *)
 Example eintr_example_blocked :
-  let s0 := init Default 8 0 0 2 [] in
+  let s0 := init Default 8 0 0 2 [] [] in
   let es := [P; P; P; P; P] ++ [PI] ++ [P; P; P; P; P; P] ++ [P; P; P; P; P] ++ [Stuck] in
   valid s0 es
   /\ (let s := fst (run step s0 (firstn 5 es)) in pp s = PInKernel /\ psub s = 0 /\ polls s = 2%nat)
@@ -1319,11 +1361,11 @@ Definition eintr_retry_schedule : list ev :=
     ([eintr_example_default]). *)
 Definition eintr_retry_loses_wakeup : Prop :=
   exists es,
-    valid_loop (init Default 8 0 0 1 [1%nat]) es
+    valid_loop (init Default 8 0 0 1 [] [1%nat]) es
     /\ nth_error es 0 = Some (W 0) /\ nth_error es 5 = Some PI
-    /\ (let s := fst (run step_loop (init Default 8 0 0 1 [1%nat]) (firstn 5 es)) in
+    /\ (let s := fst (run step_loop (init Default 8 0 0 1 [] [1%nat]) (firstn 5 es)) in
         pp s = PEnterT /\ aw s = true /\ owed s = true)
-    /\ (let s := fst (run step_loop (init Default 8 0 0 1 [1%nat]) es) in
+    /\ (let s := fst (run step_loop (init Default 8 0 0 1 [] [1%nat]) es) in
         pp s = PInKernel /\ polls s = 1%nat /\ aw s = false /\ pstate s = IS_POLLING
         /\ cq s = 0 /\ sqh s = sqt s /\ all_wakers_finished s
         /\ owed s = true /\ ev_ok s Stuck
@@ -1336,7 +1378,7 @@ Proof.
   split; [reflexivity|]. split; [reflexivity|].
   split; [vm_compute; repeat split; reflexivity|].
   assert (Hfin : all_wakers_finished
-                   (fst (run step_loop (init Default 8 0 0 1 [1%nat]) eintr_retry_schedule)))
+                   (fst (run step_loop (init Default 8 0 0 1 [] [1%nat]) eintr_retry_schedule)))
     by (apply all_wakers_finished_b; vm_compute; reflexivity).
   split; [vm_compute; reflexivity|]. split; [vm_compute; reflexivity|].
   split; [vm_compute; reflexivity|]. split; [vm_compute; reflexivity|].
@@ -1367,7 +1409,7 @@ Definition parked_schedule : list ev :=
   ++ [P; P; P].                                         (* loads; try_lock: the list is empty; the poll returns *)
 
 Example parked_example :
-  let s0 := init Default 2 2 3 1 [1%nat] in
+  let s0 := init Default 2 2 3 1 [] [1%nat] in
   let at_ n := fst (run step s0 (firstn n parked_schedule)) in
   valid s0 parked_schedule
   /\ (let s := at_ 5%nat in
@@ -1422,19 +1464,19 @@ Definition has_waiting_schedule : list ev :=
     waker committed to post its message (and then [no_lost_ring_wakeup] applies). *)
 Definition has_waiting_bit_loses_wakeup : Prop :=
   exists es,
-    valid_hw (init_hw Default 2 2 1 1 [1%nat]) es
+    valid_hw (init_hw Default 2 2 1 1 [] [1%nat]) es
     /\ nth_error es 5 = Some (W 0)
-    /\ (let s := fst (run step_hw (init_hw Default 2 2 1 1 [1%nat]) (firstn 5 es)) in
+    /\ (let s := fst (run step_hw (init_hw Default 2 2 1 1 [] [1%nat]) (firstn 5 es)) in
         pp s = PInKernel /\ pstate s = N.lor IS_POLLING HAS_WAITING /\ parked s = 1
         /\ cq s = 0 /\ sqh s = sqt s /\ owed s = false)
-    /\ (let s := fst (run step_hw (init_hw Default 2 2 1 1 [1%nat]) es) in
+    /\ (let s := fst (run step_hw (init_hw Default 2 2 1 1 [] [1%nat]) es) in
         pp s = PInKernel /\ polls s = 1%nat /\ aw s = false
         /\ pstate s = N.lor (N.lor IS_POLLING HAS_WAITING) IS_AWOKEN /\ parked s = 1
         /\ cq s = 0 /\ sqh s = sqt s /\ all_wakers_finished s
         /\ owed s = true /\ ev_ok s Stuck
         /\ lost (fst (step_hw s Stuck)) = true)
-    /\ valid (init Default 2 2 1 1 [1%nat]) es
-    /\ (let s := fst (run step (init Default 2 2 1 1 [1%nat]) es) in
+    /\ valid (init Default 2 2 1 1 [] [1%nat]) es
+    /\ (let s := fst (run step (init Default 2 2 1 1 [] [1%nat]) es) in
         pp s = PInKernel /\ pstate s = N.lor IS_POLLING IS_AWOKEN /\ owed s = true
         /\ nth_error (wakers s) 0 = Some {| wp := WAddH1; calls := 1; wok := false |}).
 
@@ -1445,7 +1487,7 @@ Proof.
   split; [reflexivity|].
   split; [vm_compute; repeat split; reflexivity|].
   assert (Hfin : all_wakers_finished
-                   (fst (run step_hw (init_hw Default 2 2 1 1 [1%nat]) has_waiting_schedule)))
+                   (fst (run step_hw (init_hw Default 2 2 1 1 [] [1%nat]) has_waiting_schedule)))
     by (apply all_wakers_finished_b; vm_compute; reflexivity).
   split.
   { split; [vm_compute; reflexivity|]. split; [vm_compute; reflexivity|].
@@ -1466,12 +1508,243 @@ Qed.
 Example has_waiting_nobody_parked :
   let es := [P; P; P; P; P] ++ [W 0] ++ [W 0; W 0; W 0; W 0; W 0; W 0; W 0] ++ [W 0; W 0]
             ++ [P] ++ [P; P; P] in
-  valid_hw (init_hw Default 8 0 0 1 [1%nat]) es
-  /\ (let s := fst (run step_hw (init_hw Default 8 0 0 1 [1%nat]) es) in
+  valid_hw (init_hw Default 8 0 0 1 [] [1%nat]) es
+  /\ (let s := fst (run step_hw (init_hw Default 8 0 0 1 [] [1%nat]) es) in
       pp s = PIdle /\ polls s = O /\ pstate s = NOT_POLLING /\ owed s = false /\ lost s = false
       /\ all_wakers_finished s).
 Proof.
   cbv zeta. split; [apply valid_hwb_sound; vm_compute; reflexivity|].
   repeat match goal with |- _ /\ _ => split end; try (vm_compute; reflexivity).
+  apply all_wakers_finished_b. vm_compute. reflexivity.
+Qed.
+
+(** ** Polls with a finite timeout *)
+
+(** What the two scheduler reports mean for the property, as a statement of its own: on every
+    schedule the scheduler / kernel can produce, whenever the blocked poller can be reported stuck
+    (no timeout) or its timeout can expire (finite timeout) — nobody is left who could post
+    anything — no wake-up is owed: no poll sleeps for ever, or through its whole timeout, while a
+    wake-up is owed. *)
+Definition expired_timeout_means_nothing_owed : Prop :=
+  forall m c prefill nparked npolls tm wcalls es, valid (init m c prefill nparked npolls tm wcalls) es ->
+    let s := fst (run step (init m c prefill nparked npolls tm wcalls) es) in
+    ev_ok s Timeout \/ ev_ok s Stuck -> owed s = false.
+
+Lemma expired_timeout_means_nothing_owed_holds : expired_timeout_means_nothing_owed.
+Proof.
+  intros m c prefill nparked npolls tm wcalls es Hv. cbv zeta.
+  pose proof (run_Inv m c prefill nparked npolls tm wcalls es Hv) as HI.
+  intros [(Epp & _ & Hcq & Hsq & Hall)|(Epp & Hcq & Hsq & Hall)]; apply Inv_nobody_left; assumption.
+Qed.
+
+(** An awoken poll does not wait, whatever timeout the caller passed: when [set_polling(true)]
+    reported "awoken" the enter call (zero timeout) comes back at once — with a completion, with
+    what it submitted, or with ETIME — and the poller is past its [enter]. *)
+Definition awoken_poll_does_not_wait : Prop :=
+  forall s, (pp s = PEnterT \/ pp s = PEnterFlags) -> aw s = true ->
+    pp (pstep s) = PWbH \/ pp (pstep s) = PClearPolling.
+
+Lemma syscall_submit_aw s k : aw (syscall_submit s k) = aw s.
+Proof. unfold syscall_submit, consume_all. destruct (md s); reflexivity. Qed.
+
+Lemma awoken_poll_does_not_wait_holds : awoken_poll_does_not_wait.
+Proof.
+  intros s Hpc Haw.
+  assert (H : forall s1 n, aw s1 = true -> pp (enter_wait s1 n) = PWbH \/ pp (enter_wait s1 n) = PClearPolling).
+  { intros s1 n H1. unfold enter_wait. rewrite H1.
+    destruct (0 <? cq s1); [left; reflexivity|]. destruct (0 <? n); [left|right]; reflexivity. }
+  unfold pstep. destruct Hpc as [E|E]; rewrite E; apply H; rewrite syscall_submit_aw; exact Haw.
+Qed.
+
+(** Non-vacuity: a poll with a finite timeout blocks, nothing is owed and nobody is there to wake
+    it: its timeout expires and it returns; the next poll (no timeout) blocks for ever, nothing
+    owed either. *)
+Example timeout_example :
+  let s0 := init Default 8 0 0 2 [true; false] [] in
+  let es := [P; P; P; P; P] ++ [Timeout] ++ [P; P; P; P; P; P] ++ [P; P; P; P; P] ++ [Stuck] in
+  valid s0 es
+  /\ (let s := fst (run step s0 (firstn 5 es)) in
+      pp s = PInKernel /\ timed s = true /\ polls s = 2%nat /\ ev_ok s Timeout /\ ~ ev_ok s P)
+  /\ (let s := fst (run step s0 (firstn 6 es)) in pp s = PClearPolling)
+  /\ (let s := fst (run step s0 (firstn 12 es)) in pp s = PIdle /\ polls s = 1%nat /\ timed s = false)
+  /\ (let s := fst (run step s0 (firstn 17 es)) in pp s = PInKernel /\ timed s = false /\ ~ ev_ok s Timeout)
+  /\ (let s := fst (run step s0 es) in polls s = 1%nat /\ owed s = false /\ lost s = false).
+Proof.
+  cbv zeta. split; [apply validb_sound; vm_compute; reflexivity|].
+  split.
+  { split; [vm_compute; reflexivity|]. split; [vm_compute; reflexivity|]. split; [vm_compute; reflexivity|].
+    split; [apply (ev_okb_sound _ Timeout); vm_compute; reflexivity|].
+    intros H. specialize (H ltac:(vm_compute; reflexivity)). vm_compute in H.
+    destruct H as [H|[H _]]; discriminate H. }
+  split; [vm_compute; reflexivity|].
+  split; [vm_compute; repeat split; reflexivity|].
+  split; [|vm_compute; repeat split; reflexivity].
+  split; [vm_compute; reflexivity|]. split; [vm_compute; reflexivity|].
+  intros (_ & H & _). vm_compute in H. discriminate H.
+Qed.
+
+(** A poll with a finite timeout that is blocked is woken like one without. *)
+Example timed_wake_example :
+  let s0 := init Default 8 0 0 1 [true] [1%nat] in
+  valid s0 wake_schedule_default
+  /\ (let s := fst (run step s0 (firstn 5 wake_schedule_default)) in pp s = PInKernel /\ timed s = true)
+  /\ (let s := fst (run step s0 wake_schedule_default) in
+      pp s = PIdle /\ polls s = O /\ owed s = false /\ lost s = false /\ all_wakers_finished s).
+Proof.
+  cbv zeta. split; [apply validb_sound; vm_compute; reflexivity|].
+  split; [vm_compute; split; reflexivity|].
+  repeat match goal with |- _ /\ _ => split end; try (vm_compute; reflexivity).
+  apply all_wakers_finished_b. vm_compute. reflexivity.
+Qed.
+
+(** Validity of a schedule for the variant that keeps the caller's timeout (same [ev_ok]). *)
+Inductive valid_or : st -> list ev -> Prop :=
+  | valid_or_nil s : valid_or s []
+  | valid_or_cons s e es : ev_ok s e -> valid_or (fst (step_or s e)) es -> valid_or s (e :: es).
+
+Fixpoint valid_orb (s : st) (es : list ev) : bool :=
+  match es with
+  | [] => true
+  | e :: r => ev_okb s e && valid_orb (fst (step_or s e)) r
+  end.
+
+Lemma valid_orb_sound es : forall s, valid_orb s es = true -> valid_or s es.
+Proof.
+  induction es as [|e es IH]; intros s H; [constructor|].
+  cbn [valid_orb] in H. apply andb_true_iff in H. destruct H as [H1 H2].
+  constructor; [apply ev_okb_sound; exact H1|apply IH; exact H2].
+Qed.
+
+(** One [wake()] before the only poll (nobody polling: only the awoken bit is set, no message),
+    then the poll, called with a finite timeout. *)
+Definition kept_timeout_schedule : list ev :=
+  [W 0]                                                 (* fetch_or: 00 -> 10; the call is done *)
+  ++ [P; P; P; P]                                       (* loads, set_polling(true): awoken; load SQ head *)
+  ++ [P].                                               (* load SQ tail + io_uring_enter *)
+
+(** Refuted for a poll that keeps the caller's [Some(t)] when awoken (seeded change C11-j; NOT the
+    code as it is): a valid interleaving — one wake() before the only poll, which is called with a
+    finite timeout — after which the poller is blocked ([aw] and all: the awoken bit was consumed
+    by the swap) with both queues empty, every waker finished and the wake-up owed: the timeout
+    expires ([Timeout] admissible) and the poll has slept through the wake-up. On the same events
+    the code as it is comes back from its enter at once (ETIME of the zero timeout) and the poll
+    returns; the variant is right too when the poll is called with [None]. *)
+Definition kept_timeout_loses_wakeup : Prop :=
+  exists es,
+    valid_or (init Default 8 0 0 1 [true] [1%nat]) es
+    /\ nth_error es 0 = Some (W 0)
+    /\ (let s := fst (run step_or (init Default 8 0 0 1 [true] [1%nat]) (firstn 5 es)) in
+        pp s = PEnterT /\ aw s = true /\ timed s = true /\ owed s = true /\ pstate s = IS_POLLING)
+    /\ (let s := fst (run step_or (init Default 8 0 0 1 [true] [1%nat]) es) in
+        pp s = PInKernel /\ polls s = 1%nat /\ aw s = true /\ timed s = true /\ pstate s = IS_POLLING
+        /\ cq s = 0 /\ sqh s = sqt s /\ all_wakers_finished s
+        /\ owed s = true /\ ev_ok s Timeout
+        /\ lost (fst (step_or s Timeout)) = true)
+    /\ valid (init Default 8 0 0 1 [true] [1%nat]) es
+    /\ (let s := fst (run step (init Default 8 0 0 1 [true] [1%nat]) es) in
+        pp s = PClearPolling /\ owed s = true /\ lost s = false
+        /\ (let s' := fst (run step s [P; P; P; P; P; P]) in
+            pp s' = PIdle /\ polls s' = O /\ owed s' = false /\ lost s' = false))
+    /\ (let s := fst (run step_or (init Default 8 0 0 1 [false] [1%nat]) es) in
+        pp s = PClearPolling /\ lost s = false).
+
+Lemma kept_timeout_loses_wakeup_refuted : kept_timeout_loses_wakeup.
+Proof.
+  exists kept_timeout_schedule. cbv zeta.
+  split; [apply valid_orb_sound; vm_compute; reflexivity|].
+  split; [reflexivity|].
+  split; [vm_compute; repeat split; reflexivity|].
+  assert (Hfin : all_wakers_finished
+                   (fst (run step_or (init Default 8 0 0 1 [true] [1%nat]) kept_timeout_schedule)))
+    by (apply all_wakers_finished_b; vm_compute; reflexivity).
+  split.
+  { split; [vm_compute; reflexivity|]. split; [vm_compute; reflexivity|].
+    split; [vm_compute; reflexivity|]. split; [vm_compute; reflexivity|].
+    split; [vm_compute; reflexivity|]. split; [vm_compute; reflexivity|].
+    split; [vm_compute; reflexivity|]. split; [exact Hfin|].
+    split; [vm_compute; reflexivity|].
+    split; [|vm_compute; reflexivity].
+    split; [vm_compute; reflexivity|]. split; [vm_compute; reflexivity|].
+    split; [vm_compute; reflexivity|]. split; [vm_compute; reflexivity|exact Hfin]. }
+  split; [apply validb_sound; vm_compute; reflexivity|].
+  split; vm_compute; repeat split; reflexivity.
+Qed.
+
+(** ** The single-issuer ring and who may enter it *)
+
+(** Validity of a schedule for the variant whose wakers enter a single-issuer ring (same [ev_ok]). *)
+Inductive valid_nsi : st -> list ev -> Prop :=
+  | valid_nsi_nil s : valid_nsi s []
+  | valid_nsi_cons s e es : ev_ok s e -> valid_nsi (fst (step_nsi s e)) es -> valid_nsi s (e :: es).
+
+Fixpoint valid_nsib (s : st) (es : list ev) : bool :=
+  match es with
+  | [] => true
+  | e :: r => ev_okb s e && valid_nsib (fst (step_nsi s e)) r
+  end.
+
+Lemma valid_nsib_sound es : forall s, valid_nsib s es = true -> valid_nsi s es.
+Proof.
+  induction es as [|e es IH]; intros s H; [constructor|].
+  cbn [valid_nsib] in H. apply andb_true_iff in H. destruct H as [H1 H2].
+  constructor; [apply ev_okb_sound; exact H1|apply IH; exact H2].
+Qed.
+
+(** The poll blocks; then one [wake()] that takes the ordinary path. *)
+Definition refused_enter_schedule : list ev :=
+  [P; P; P; P; P]                                       (* the poll blocks in enter *)
+  ++ [W 0]                                              (* fetch_or: 01 -> 11 *)
+  ++ [W 0; W 0; W 0; W 0; W 0; W 0; W 0]                (* add: the MSG_RING entry is published *)
+  ++ [W 0; W 0].                                        (* enter: load head; load tail + syscall: EEXIST *)
+
+(** Refuted for a [Submissions::wake] that takes the ordinary path (add + enter from the waking
+    thread) on a single-issuer ring (seeded change C11-i; NOT the code as it is): a valid
+    interleaving after which the poller is blocked with an empty completion queue, every waker
+    finished — so that, there being no kernel thread, nobody is left who will ever enter the kernel:
+    the scheduler's report — the wake message published but never submitted, and the wake-up owed:
+    it is lost. On the same events the code as it is has posted the message synchronously at the
+    [fetch_or] (the further waker events find the waker finished and change nothing): the blocked
+    poller can be resumed. *)
+Definition refused_enter_loses_wakeup : Prop :=
+  exists es,
+    valid_nsi (init SingleIssuer 8 0 0 1 [] [1%nat]) es
+    /\ nth_error es 5 = Some (W 0)
+    /\ (let s := fst (run step_nsi (init SingleIssuer 8 0 0 1 [] [1%nat]) (firstn 5 es)) in
+        pp s = PInKernel /\ pstate s = IS_POLLING /\ cq s = 0 /\ owed s = false)
+    /\ (let s := fst (run step_nsi (init SingleIssuer 8 0 0 1 [] [1%nat]) (firstn 14 es)) in
+        sqt s = sqh s + 1
+        /\ nth_error (wakers s) 0 = Some {| wp := WEnterT; calls := 1; wok := true |})
+    /\ (let s := fst (run step_nsi (init SingleIssuer 8 0 0 1 [] [1%nat]) es) in
+        pp s = PInKernel /\ polls s = 1%nat /\ md s = SingleIssuer
+        /\ pstate s = N.lor IS_POLLING IS_AWOKEN
+        /\ cq s = 0 /\ sqt s = sqh s + 1 /\ sqo s = 0 /\ all_wakers_finished s
+        /\ owed s = true /\ ~ ev_ok s P
+        /\ lost (fst (step_nsi s Stuck)) = true)
+    /\ valid (init SingleIssuer 8 0 0 1 [] [1%nat]) es
+    /\ (let s := fst (run step (init SingleIssuer 8 0 0 1 [] [1%nat]) es) in
+        pp s = PInKernel /\ cq s = 1 /\ sqh s = sqt s /\ owed s = true /\ ev_ok s P
+        /\ all_wakers_finished s).
+
+Lemma refused_enter_loses_wakeup_refuted : refused_enter_loses_wakeup.
+Proof.
+  exists refused_enter_schedule. cbv zeta.
+  split; [apply valid_nsib_sound; vm_compute; reflexivity|].
+  split; [reflexivity|].
+  split; [vm_compute; repeat split; reflexivity|].
+  split; [vm_compute; repeat split; reflexivity|].
+  split.
+  { split; [vm_compute; reflexivity|]. split; [vm_compute; reflexivity|].
+    split; [vm_compute; reflexivity|]. split; [vm_compute; reflexivity|].
+    split; [vm_compute; reflexivity|]. split; [vm_compute; reflexivity|].
+    split; [vm_compute; reflexivity|].
+    split; [apply all_wakers_finished_b; vm_compute; reflexivity|].
+    split; [vm_compute; reflexivity|].
+    split; [|vm_compute; reflexivity].
+    intros H. specialize (H ltac:(vm_compute; reflexivity)). vm_compute in H.
+    destruct H as [H|[H _]]; discriminate H. }
+  split; [apply validb_sound; vm_compute; reflexivity|].
+  split; [vm_compute; reflexivity|]. split; [vm_compute; reflexivity|].
+  split; [vm_compute; reflexivity|]. split; [vm_compute; reflexivity|].
+  split; [apply (ev_okb_sound _ P); vm_compute; reflexivity|].
   apply all_wakers_finished_b. vm_compute. reflexivity.
 Qed.
